@@ -656,6 +656,10 @@ func (h *hist) linkChurn() {
 		}
 		h.setLink(name, true, true, false)
 		h.tags["link-flap"] = true
+	case ok && l.running && r.chance(20):
+		// carrier loss: oper state goes down, the device and its routes stay (no flush)
+		h.setLink(name, true, false, false)
+		h.tags["link:carrier-loss-no-flush"] = true
 	case !ok:
 		h.setLink(name, true, r.chance(85), false)
 	case r.chance(25):
